@@ -48,15 +48,30 @@ pub fn remap_jar_entry_name(name: &str, remapper: &impl BRemapper) -> Result<Str
 
 pub fn remap_jar_entry_name_java(name: &JavaStr, remapper: &impl BRemapper) -> Result<JavaString> {
 	if let Some(name_without_class) = name.strip_suffix(".class") {
+		// in a multi-release jar the classes of a release are stored below `META-INF/versions/<release>/`
+		let (prefix, name_without_class) = multi_release_prefix(name_without_class);
 		// SAFETY: todo
 		let class_name = unsafe { ObjClassNameSlice::from_inner_unchecked(name_without_class) };
 		let name = remapper.map_class(class_name)?;
-		Ok(format!("{name}.class").into())
+		Ok(format!("{prefix}{name}.class").into())
 	} else {
 		// TODO: also deal with directory names...
 		eprintln!("remap jar entry name: unknown for {name:?}");
 		Ok(name.to_owned())
 	}
+}
+
+/// Splits `META-INF/versions/<digits>/rest` into the prefix (with the trailing `/`) and `rest`; the prefix is empty otherwise.
+fn multi_release_prefix(name: &JavaStr) -> (&JavaStr, &JavaStr) {
+	if let Some(rest) = name.strip_prefix("META-INF/versions/") {
+		if let Some(slash) = rest.find('/') {
+			if slash > 0 && rest[..slash].chars().all(|ch| ('0'..='9').contains(&ch)) {
+				let prefix_len = name.len() - rest.len() + slash + 1;
+				return (&name[..prefix_len], &name[prefix_len..]);
+			}
+		}
+	}
+	(&name[..0], name)
 }
 
 pub fn remap_class(remapper: &impl BRemapper, class: impl IsClass) -> Result<ClassFile> {
